@@ -1,2 +1,22 @@
 import FpgoVerif.Props.C19
 /-! `#print axioms` for every property theorem of C19; parsed by `check`. -/
+#print axioms FpgoVerif.C19.C19_api_is_sortBy
+#print axioms FpgoVerif.C19.C19_sort_perm
+#print axioms FpgoVerif.C19.C19_sort_ordered
+#print axioms FpgoVerif.C19.C19_sort_stable
+#print axioms FpgoVerif.C19.C19_sort_stable_positions
+#print axioms FpgoVerif.C19.C19_sort_unique
+#print axioms FpgoVerif.C19.C19_sortOrdered_asc
+#print axioms FpgoVerif.C19.C19_sortOrdered_desc
+#print axioms FpgoVerif.C19.C19_natural_orders_strictWeak
+#print axioms FpgoVerif.C19.C19_compareTo_sign
+#print axioms FpgoVerif.C19.C19_desc
+#print axioms FpgoVerif.C19.C19_desc_strictWeak
+#print axioms FpgoVerif.C19.C19_desc_single
+#print axioms FpgoVerif.C19.C19_pinned_refuted
+#print axioms FpgoVerif.C19.C19_sortedList
+#print axioms FpgoVerif.C19.C19_sortedList_heap
+#print axioms FpgoVerif.C19.C19_alias_variant_modifies_input
+#print axioms FpgoVerif.C19.C19_sortInPlace
+#print axioms FpgoVerif.C19.C19_oracle_accepts_exactly_model
+#print axioms FpgoVerif.C19.C19_oracle_desc
